@@ -14,6 +14,7 @@
 #include <stdint.h>
 #include <inttypes.h>
 #include <pthread.h>
+#include <unistd.h>
 #include "sz.h"
 #include "szimpl.h"
 
@@ -113,8 +114,10 @@ static void op_thr(int argc, char** a)
 	for (int i = 0; i < n; i++) { tlen[i] = 0; trace[i][0] = 0; }
 	pthread_mutex_lock(&mu); if (scheduling) pick_next(); pthread_mutex_unlock(&mu);
 	pthread_t th[MAXT];
+	alarm(8);       /* a racing call can corrupt the heap and leave the process stuck in abort(): do not wait for it */
 	for (int i = 0; i < n; i++) pthread_create(&th[i], NULL, worker, &sp[i]);
 	for (int i = 0; i < n; i++) pthread_join(th[i], NULL);
+	alarm(0);
 	szv_yield_fn = NULL; scheduling = 0;
 	for (int i = 0; i < n; i++) { report(&sp[i], "c"); printf(",%s", tlen[i] ? trace[i] : "_"); fflush(R); if (sp[i].out) free(sp[i].out); free(sp[i].data); }
 	printf("\n");
